@@ -117,6 +117,7 @@ def run(ctx, cases_override=None):
         "rule": "distinct = fork tree + (name-status, content) of every commit; non-trivial = histories for which the documentation demands at least one warning",
         "histories_removing_a_rule": removing,
         "warnings_reported": sum(x[1] for x in nd), "warnings_documented": sum(x[2] for x in nd),
+        "ops_histogram": {k: sum(1 for c in cases for o in c["log"] if o["op"] == k) for k in sorted({o["op"] for c in cases for o in c["log"]})},
         "gen": gstats, "trace_records": len(trace),
     }
     return vlib.conclude(ctx, viols, "model_checking", cov, [
